@@ -3,7 +3,7 @@ import json
 import common
 
 PROPS = "RotoV.Props.C13"
-EXTRA = ["RotoV.Lemmas.Scope", "RotoV.Lemmas.ScopePath", "RotoV.Lemmas.ScopeFrame", "RotoV.Lemmas.ScopeBuild", "RotoV.Lemmas.ScopeDiscovery", "RotoV.Lemmas.ScopeExport", "RotoV.Lemmas.ScopeWitness", "RotoV.Lemmas.ScopeImports", "RotoV.Lemmas.ScopeTermination", "RotoV.Lemmas.ScopeGetFunction", "RotoV.Lemmas.ScopeNoPanic", "RotoV.Lemmas.ScopeAlias", "RotoV.Lemmas.ScopeImportsLoop", "RotoV.Lemmas.ScopeImportsComplete", "RotoV.Model.ScopeImportsLoop", "RotoV.Model.Scope"]
+EXTRA = ["RotoV.Lemmas.Scope", "RotoV.Lemmas.ScopePath", "RotoV.Lemmas.ScopeFrame", "RotoV.Lemmas.ScopeBuild", "RotoV.Lemmas.ScopeDiscovery", "RotoV.Lemmas.ScopeExport", "RotoV.Lemmas.ScopeWitness", "RotoV.Lemmas.ScopeImports", "RotoV.Lemmas.ScopeTermination", "RotoV.Lemmas.ScopeGetFunction", "RotoV.Lemmas.ScopeNoPanic", "RotoV.Lemmas.ScopeAlias", "RotoV.Lemmas.ScopeImportsLoop", "RotoV.Lemmas.ScopeImportsComplete", "RotoV.Lemmas.ScopeResolveLoop", "RotoV.Model.ScopeImportsLoop", "RotoV.Model.ScopeResolveLoop", "RotoV.Model.Scope"]
 
 
 def search(ctx):
@@ -14,7 +14,7 @@ def search(ctx):
 
 
 def run(ctx):
-    ctx.extract(["scopefacts", "scopeimports"])
+    ctx.extract(["scopefacts", "scopeimports", "scoperesolve"])
     ctx.prove(PROPS, extra_modules=EXTRA)
     if ctx.build_harness("c13"):
         ctx.harness("c13", ["run", ctx.seed, ctx.tier], timeout=3000)
@@ -32,6 +32,10 @@ def run(ctx):
         "into the little language of Model/ScopeImportsLoop.lean (the meaning of `retain(|p| import(p).is_err())` and of "
         "`for p in &paths { import(p)?; }` is retainPass / importAll of the hand model); any other statement form is an "
         "extraction failure",
+        "translator target scoperesolve: the body of the loop of ScopeGraph::resolve_name is transliterated statement "
+        "by statement into the little language of Model/ScopeResolveLoop.lean (locals by name, `&e` / `e.clone()` "
+        "mean e, the MetaId of an import entry is dropped); any other statement or expression form is an extraction "
+        "failure",
         "translator target scopefacts (extract/src/targets/c13.rs): locates the consulted tables / literals by what "
         "is consulted (method names, receivers, compared variables), not by code shape",
     ]
